@@ -83,9 +83,9 @@ CLAIMED = {
               "invariant of states reached through the API, proved preserved."),
         technique='Lean 4 proof (induction over target trees and loop fuel; verified decision procedure for the put table; decode/encode round-trip) + per-run decide certificate; differential correspondence run',
     ),
-    'C01': dict(category='proof', text="Lean: step_sound (one step preserves the representation invariant WFx, never reaches UB, and commutes with the abstraction to the reference model where every handle is an independent Vec<u8>) for all 29 operations, all arguments, all environments/configurations; refines / refines_init (any script, by induction), frame (an op on one handle never changes what another reads), bytes_immutable. T2: the judge runs the Lean reference model Spec.step and the M1 model in lock-step with the real crate under the ledger allocator (random walks, boundary sweep, pair-exhaustive stream; debug+release) and evaluates the same predicates on the implementation's observations.", design='§7 C01, §3 M1', note="Trusted: Lean kernel; the hand transliteration of src/bytes.rs + src/bytes_mut.rs into Model/Core.lean (tied by T1 for vtable wiring and representation constants — Cert/C01 — and otherwise by T2 only: lock-step judge compares outcome, every live handle's kind / allocation class + offset / len / capacity / is_unique / contents and the allocator-event delta after every op; ~250k ops per quick run, 0 disagreements on the unchanged tree); std's Vec/Box behaviour and the allocator contract as modelled (checked by T2); OpOK (slices <= isize::MAX); 64-bit usize.",
+    'C01': dict(category='proof', text="Lean: step_sound (one step preserves the representation invariant WFx, never reaches UB, and commutes with the abstraction to the reference model where every handle is an independent Vec<u8>) for all 29 operations, all arguments, all environments/configurations; refines / refines_init (any script, by induction), frame (an op on one handle never changes what another reads), bytes_immutable. T2: the judge runs the Lean reference model Spec.step and the M1 model in lock-step with the real crate under the ledger allocator (random walks, boundary sweep, pair-exhaustive stream; debug+release) and evaluates the same predicates on the implementation's observations; Extend / FromIterator driven by iterators with wrong size hints (adv stream) must append exactly the yielded items.", design='§7 C01, §3 M1', note="Trusted: Lean kernel; the hand transliteration of src/bytes.rs + src/bytes_mut.rs into Model/Core.lean (tied by T1 for vtable wiring and representation constants — Cert/C01 — and otherwise by T2 only: lock-step judge compares outcome, every live handle's kind / allocation class + offset / len / capacity / is_unique / contents and the allocator-event delta after every op; ~250k ops per quick run, 0 disagreements on the unchanged tree); std's Vec/Box behaviour and the allocator contract as modelled (checked by T2); OpOK (slices <= isize::MAX); 64-bit usize.",
         technique='Lean 4 proof: inductive representation invariant + refinement to a reference model over a hand-written executable model of the core; differential correspondence check (lock-step judge) under a ledger allocator'),
-    'C02': dict(category='proof', text="Lean: no_ub — from every well-formed state no operation with any argument value reaches a model-level UB (every raw-memory primitive of the model checks live/in-bounds/initialised/layout-exact/parity-decoded), in every configuration; invariant W1–W5 preserved (step_sound). T2: ledger allocator (layout-exact frees, red zones, poison+quarantine, unknown-pointer frees), every handle's [ptr, ptr+cap) inside one live block after every op, process-death detection, out-of-contract and near-usize::MAX arguments, debug and release, both address parities; BufMut side: guard bytes around every fixed-size destination in the write stream of C11 and the reviewed unsafe-site inventory (Cert/C17); thorough tier adds AddressSanitizer and a Miri sample as support. PARTIAL by nature: byte/allocation level only; provenance and aliasing rules of the Rust abstract machine are not expressible in M1 (see DESIGN).", design='§7 C02', note="Trusted: Lean kernel; the hand transliteration of src/bytes.rs + src/bytes_mut.rs into Model/Core.lean (tied by T1 for vtable wiring and representation constants — Cert/C01 — and otherwise by T2 only: lock-step judge compares outcome, every live handle's kind / allocation class + offset / len / capacity / is_unique / contents and the allocator-event delta after every op; ~250k ops per quick run, 0 disagreements on the unchanged tree); std's Vec/Box behaviour and the allocator contract as modelled (checked by T2); OpOK (slices <= isize::MAX); 64-bit usize.",
+    'C02': dict(category='proof', text="Lean: no_ub — from every well-formed state no operation with any argument value reaches a model-level UB (every raw-memory primitive of the model checks live/in-bounds/initialised/layout-exact/parity-decoded), in every configuration; invariant W1–W5 preserved (step_sound). T2: ledger allocator (layout-exact frees, red zones, poison+quarantine, unknown-pointer frees), every handle's [ptr, ptr+cap) inside one live block after every op, process-death detection, out-of-contract and near-usize::MAX arguments, debug and release, both address parities; BufMut side: guard bytes around every fixed-size destination in the write stream of C11 and the reviewed unsafe-site inventory (Cert/C17); Extend / FromIterator under panicking and lying iterators (adv stream) with the allocator oracle; thorough tier adds AddressSanitizer and a Miri sample as support. PARTIAL by nature: byte/allocation level only; provenance and aliasing rules of the Rust abstract machine are not expressible in M1 (see DESIGN).", design='§7 C02', note="Trusted: Lean kernel; the hand transliteration of src/bytes.rs + src/bytes_mut.rs into Model/Core.lean (tied by T1 for vtable wiring and representation constants — Cert/C01 — and otherwise by T2 only: lock-step judge compares outcome, every live handle's kind / allocation class + offset / len / capacity / is_unique / contents and the allocator-event delta after every op; ~250k ops per quick run, 0 disagreements on the unchanged tree); std's Vec/Box behaviour and the allocator contract as modelled (checked by T2); OpOK (slices <= isize::MAX); 64-bit usize.",
         technique='Lean 4 proof: inductive representation invariant + refinement to a reference model over a hand-written executable model of the core; differential correspondence check (lock-step judge) under a ledger allocator'),
     'C03': dict(category='proof', text="Lean: the ledger invariant evOKB over the event history (every heap region allocated exactly once with its size, deallocated exactly once with that size iff dead, non-heap memory never allocated/freed by the crate, every owner has as_ref called exactly once and is dropped exactly once iff its control block is gone) is preserved by every operation incl. panics (evOK_step); no_leak (no live handle => no live heap region / control block), alive_while_viewed, owner_alive_while_viewed, all_released_once; drop orders are ordinary scripts, so every order is covered. T2: ledger balanced at the end of every script after dropping the survivors in random order, instrumented owners (as_ref / drop counters), dealloc events layout-exact.", design='§7 C03', note="As C01 (hand-written M1 tied by T2); Box<Owned<T>> drop glue calls T::drop once (std).",
         technique='Lean 4 proof: inductive invariant over the monotone event history of a hand-written executable model of the core; differential correspondence check under a ledger allocator'),
